@@ -10,7 +10,7 @@ WORK = os.path.join(ROOT, ".work")
 REPLAYS = os.path.join(ROOT, "replays")
 EVIDENCE = os.path.join(ROOT, "evidence")
 
-TOY = {5: (11, 4), 7: (29, 16), 11: (23, 4), 13: (53, 16), 251: (503, 4), 257: (1543, 64)}
+TOY = {5: (11, 4), 7: (29, 16), 11: (23, 4), 13: (53, 16), 251: (503, 4), 257: (1543, 64), 23099: (46199, 4)}
 
 
 class ToolError(Exception):
@@ -63,6 +63,7 @@ class Ctx:
                     "slices": [], "replayed_scripts": 0, "replayed_steps": 0, "drift": 0,
                     "trace_events_validated": 0, "exhaustive": True}
         self.assumptions = []
+        self.struct_files = []
 
     def cleanup(self):
         shutil.rmtree(self.dir, ignore_errors=True)
@@ -145,7 +146,7 @@ def run_tlc_replay(ctx, name, d, workers=12, xmx="12g", timeout=1500, replay=Tru
     tlc = (f"timeout {timeout} java -XX:+UseParallelGC -Xmx{xmx} -cp {JAR} tlc2.TLC -workers {workers} {sim} "
            f"-metadir {d}/states -noGenerateSpecTE -config MC.cfg MC.tla 2>&1")
     if replay:
-        cmd = (f"{tlc} | tee >(grep -av '^\"{{' > tlc.log) | {FV} replay --threads 8 --fail-dir {d}/fails --sample {d}/sample.json "
+        cmd = (f"{tlc} | tee >(grep -av '^\"{{' > tlc.log) | {FV} replay --threads 8 --fail-dir {d}/fails --sample {d}/sample.json --struct-out {d}/structs.ndjson --struct-max 4000 "
                f"> replay.out; echo ${{PIPESTATUS[0]}} > rc")
     else:
         cmd = f"{tlc} > tlc.log; echo $? > rc"
@@ -251,6 +252,7 @@ def model_stage(ctx, slices, fatal, module=None):
                               f"(slice {name}, step {m.get('step')})", replay_path=dst)
             else:
                 ctx.drift += 1
+        ctx.struct_files.append(os.path.join(d, "structs.ndjson"))
         # keep one sample script
         if len(ctx.cov["samples"]) < 3:
             s = sample_script(d)
@@ -266,6 +268,202 @@ def sample_script(d):
         except Exception:
             return None
     return None
+
+
+# ---------------------------------------------------------------------- traces (code -> spec)
+
+WITNESS_Q = 23099
+REAL_SUITES = ["ed25519", "ed448", "p256", "ristretto255", "secp256k1", "secp256k1-tr"]
+GENERIC_KEYS = {"ok", "err", "culprits", "min", "max", "id", "same", "roundtrip_ok", "singles", "plains",
+                "inner_comm_eq", "commit_same", "keyed_by_own_id", "stage"}
+ORDERED_KEYS = set()
+
+
+def run_trace_tlc(d, module, trace_file, q=None, timeout=1200, _retry=True):
+    """TLC on a trace specification; returns (lines_consumed, bad list [(line, op, key)])."""
+    for root in (SPEC, os.path.join(SPEC, "props"), os.path.join(SPEC, "trace")):
+        for f in os.listdir(root):
+            if f.endswith(".tla"):
+                shutil.copy(os.path.join(root, f), d)
+    cfg = ["CONSTANTS"]
+    if q:
+        p, g = TOY[q]
+        cfg += [f" Q = {q}", f" P = {p}", f" GEN = {g}"]
+        cfg += [f" {k} <- MC_Empty" for k in ("DomH1", "DomH2", "DomH3", "DomH4", "DomH5", "DomHDKG", "DomHR", "DomHID")]
+    if len(cfg) == 1:
+        cfg = []
+    cfg += ["SPECIFICATION TraceSpec", "INVARIANT Consumed", "CHECK_DEADLOCK FALSE"]
+    open(os.path.join(d, "TMC.tla"), "w").write(f"---- MODULE TMC ----\nEXTENDS {module}\nMC_Empty == {{}}\n====\n")
+    open(os.path.join(d, "TMC.cfg"), "w").write("\n".join(cfg) + "\n")
+    rc, out, err = sh(f"timeout {timeout} java -XX:+UseParallelGC -Xss1g -Xmx8g -Dtlc2.tool.queue.IStateQueue=StateDeque "
+                      f"-cp {JAR} tlc2.TLC -workers 1 -metadir {d}/tstates -noGenerateSpecTE -config TMC.cfg TMC.tla 2>&1",
+                      cwd=d, timeout=timeout + 60, env={"TRACE": trace_file})
+    shutil.rmtree(os.path.join(d, "tstates"), ignore_errors=True)
+    i = out.find('<<"TRACE-RESULT"')
+    if i < 0 and _retry:
+        time.sleep(2)
+        return run_trace_tlc(d, module, trace_file, q, timeout, _retry=False)
+    if i < 0:
+        raise ToolError(f"trace validation ({module}) produced no result:\n" + "\n".join(out.splitlines()[-30:]))
+    j = out.find("Model checking completed", i)
+    body = out[i:j if j > 0 else len(out)]
+    n = int(re.search(r'"TRACE-RESULT",\s*(\d+)', body).group(1))
+    bad = [(int(a), b, c) for a, b, c in re.findall(r'<<(\d+),\s*"([^"]*)",\s*"([^"]*)">>', body)]
+    return n, bad
+
+
+def load_events(path):
+    return [json.loads(l) for l in open(path)]
+
+
+def proj(res, unordered=False):
+    out = {}
+    for k, v in res.items():
+        if k in GENERIC_KEYS:
+            out[k] = v
+    return out
+
+
+def trace_stage(ctx, fatal, n_quick=120, n_thorough=1200, suites=None, id_modes=("plain", "u16mul", "big", "derive")):
+    """code -> spec.  Value-free structures of TLC's behaviours are run on the toy
+    witness field (validated exactly by TraceAlg) and on the real suites
+    (validated against the witness projection and value-free laws by TraceReal)."""
+    import random
+    structs, seen = [], set()
+    for f in ctx.struct_files:
+        if os.path.exists(f):
+            for line in open(f):
+                line = line.strip()
+                if line and line not in seen:
+                    seen.add(line)
+                    structs.append(line)
+    if not structs:
+        raise ToolError("no scenario structures to record")
+    rnd = random.Random(ctx.seed)
+    n = n_thorough if ctx.tier == "thorough" else n_quick
+    if len(structs) > n:
+        structs = rnd.sample(structs, n)
+    d = os.path.join(ctx.dir, "traces")
+    os.makedirs(d, exist_ok=True)
+    sp = os.path.join(d, "structs.ndjson")
+    open(sp, "w").write("\n".join(structs) + "\n")
+    script_of = {i + 1: json.loads(s) for i, s in enumerate(structs)}
+
+    def fv_run(suite, seed, out, id_mode="plain"):
+        rc, o, e = sh(f"{FV} run --suite {suite} --q {WITNESS_Q} --seed {seed} --id-mode {id_mode} --events {out} < {sp}", cwd=d,
+                      timeout=1800)
+        summ = [json.loads(l[8:]) for l in o.splitlines() if l.startswith("SUMMARY ")]
+        if rc != 0 or not summ:
+            raise ToolError(f"fv run failed for {suite}: {o[-500:]} {e[-500:]}")
+        if summ[0]["script_errors"]:
+            raise ToolError(f"fv run {suite}: scripts could not be interpreted: {summ[0]['errors']}")
+        return summ[0]
+
+    def report(bad, events, what, extra):
+        seen_keys = set()
+        for (line, op, key) in bad:
+            m = {"op": op, "key": key}
+            if classify(m, fatal) or key in ("culprits_order", "released_invalid", "ext_ok", "panic", "first_vs_all"):
+                vkey = f"{ctx.pid}:trace:{what}:{op}:{key}"
+                if vkey in seen_keys:
+                    continue
+                seen_keys.add(vkey)
+                # find the scenario this line belongs to
+                j = line - 1
+                while j >= 0 and events[j].get("op") != "reset":
+                    j -= 1
+                sidx = events[j].get("script") if j >= 0 else None
+                ev = events[line - 1]
+                rp = {"what": what, "script_index": sidx, "script": script_of.get(sidx), "event": ev}
+                rp.update(extra)
+                if j >= 0:
+                    rp["suite"] = events[j].get("suite")
+                    rp["id_mode"] = events[j].get("id_mode")
+                    what_s = f"{what}/{events[j].get('suite')}/{events[j].get('id_mode')}"
+                else:
+                    what_s = what
+                ctx.violation(vkey, f"trace validation ({what_s}): {op}.{key} differs from the specification at event {line}: "
+                              f"got {json.dumps(ev.get('res'))[:300]} expected {json.dumps(ev.get('wit', {}))[:200]}",
+                              replay_obj=rp)
+            else:
+                ctx.drift += 1
+
+    # 1. two witnesses, validated exactly against the Alg specification
+    wits = []
+    for k in (1, 2):
+        wp = os.path.join(d, f"wit{k}.ndjson")
+        fv_run("toy", ctx.seed * 2 + k, wp)
+        n_ev, bad = run_trace_tlc(d, "TraceAlg", wp, q=WITNESS_Q)
+        ev = load_events(wp)
+        log(f"[{ctx.pid}] witness {k}: {n_ev} events validated against TraceAlg, {len(bad)} differences")
+        ctx.cov["trace_events_validated"] += n_ev
+        ctx.cov["traces_validated_against_impl"] += sum(1 for e in ev if e.get("op") == "reset")
+        report(bad, ev, f"witness{k}", {"q": WITNESS_Q, "seed": ctx.seed * 2 + k})
+        wits.append(ev)
+
+    # 2. generic projection: scenarios on which the two witnesses agree step by step
+    def by_script(ev):
+        out, cur = {}, None
+        for e in ev:
+            if e.get("op") == "reset":
+                cur = e["script"]
+                out[cur] = []
+            else:
+                out[cur].append(e)
+        return out
+    w1, w2 = by_script(wits[0]), by_script(wits[1])
+    generic = {}
+    for sidx in w1:
+        a, b = w1[sidx], w2.get(sidx, [])
+        if len(a) == len(b) and all(proj(x["res"]) == proj(y["res"]) for x, y in zip(a, b)):
+            generic[sidx] = [proj(x["res"]) for x in a]
+    ctx.cov["generic_scenarios"] = len(generic)
+    ctx.cov["nongeneric_scenarios_skipped"] = len(w1) - len(generic)
+
+    # 3. real suites
+    real_path = os.path.join(d, "real.ndjson")
+    n_real = 0
+    with open(real_path, "w") as out:
+        for si, suite in enumerate(suites or REAL_SUITES):
+            modes = id_modes if ctx.tier == "thorough" else (id_modes[si % len(id_modes)], "plain")
+            for mode in dict.fromkeys(modes):
+                ep = os.path.join(d, f"{suite}-{mode}.ndjson")
+                fv_run(suite, ctx.seed * 7 + si, ep, mode)
+                cur, k = None, 0
+                for e in load_events(ep):
+                    if e.get("op") == "reset":
+                        cur, k = e["script"], 0
+                        if cur in generic:
+                            out.write(json.dumps(e) + "\n")
+                            n_real += 1
+                        continue
+                    if cur in generic:
+                        g = generic[cur]
+                        if k < len(g):
+                            w = dict(g[k])
+                            if mode == "derive":
+                                e["unordered"] = True
+                                # which culprit is *first* depends on the identifier order, which a
+                                # hash-derived identifier does not share with its label (checked by the
+                                # first-vs-all law of TraceReal instead)
+                                if e.get("mode", "FirstCheater") == "FirstCheater" and e.get("op") == "aggregate":
+                                    w.pop("culprits", None)
+                                if e.get("op") in ("dkg2", "dkg3"):   # first failing sender in identifier order
+                                    w.pop("culprits", None)
+                            e["wit"] = w
+                        e.pop("queries", None)
+                        out.write(json.dumps(e) + "\n")
+                    k += 1
+                os.remove(ep)
+    n_ev, bad = run_trace_tlc(d, "TraceReal", real_path)
+    ev = load_events(real_path)
+    log(f"[{ctx.pid}] real suites: {n_real} scenario runs, {n_ev} events validated against TraceReal, {len(bad)} differences")
+    ctx.cov["trace_events_validated"] += n_ev
+    ctx.cov["traces_validated_against_impl"] += n_real
+    ctx.cov["real_suite_runs"] = n_real
+    report(bad, ev, "real", {"seed": ctx.seed})
+    if len(ctx.cov["samples"]) < 4 and ev:
+        ctx.cov["samples"].append({"real_suite_events": ev[1:4]})
 
 
 def assume_stage(ctx, name, module, consts, timeout=900):
